@@ -471,6 +471,8 @@ func c15(c *Check) {
 	}
 	c.Extra["reachable_functions"] = len(fns)
 	c.Extra["panic_sources_examined"] = nsites
+	c.Rule("C15/result-used-only-after-its-error-was-ruled-out", "in code reachable outside transaction recovery a pointer returned together with an error is dereferenced only where the error has been tested nil (or the pointer non-nil)", 1)
+	resultUsedAfterErrorCheck(c, "C15/result-used-only-after-its-error-was-ruled-out", fns)
 	c.Rule("C15/no-failure-reported-as-success", "on the failure edge of one error no function returns another error value that is provably nil at that point (a wrapped stale `err` instead of the error just tested): a failed step is never reported as success", 1)
 	noFailureAsSuccess(c, "C15/no-failure-reported-as-success", fns)
 	c.Rule("C15/audit-table-live", "every audited entry still matches a site (stale entries are reported so the table cannot silently over-approve)", 25)
